@@ -109,6 +109,20 @@ impl Small {
         }
         h
     }
+    /// The matrix built in one of five ways (row-major, reversed, column-major with descending rows,
+    /// interleaved, redundant editing history), chosen by a hash of its contents: a matrix is a set
+    /// of positions, so nothing may depend on the way it was built. Deterministic per matrix.
+    pub fn sparse_var(&self) -> SparseMatrix {
+        let mut x = 0x9E37_79B9_7F4A_7C15u64 ^ (self.n as u64);
+        for &r in &self.rows {
+            x = (x ^ r).wrapping_mul(0x1000_0000_01B3);
+            x ^= x >> 29;
+        }
+        match x % 5 {
+            4 => self.sparse_redundant(),
+            k => self.sparse_order(k as usize),
+        }
+    }
     pub fn syndrome_ok(&self, word: u64) -> bool {
         self.rows.iter().all(|r| (r & word).count_ones() % 2 == 0)
     }
